@@ -181,7 +181,9 @@ CLAIMED.update({
             "C13_keep_setting_decides / C13_keep_env_default (where the keep-next-hop-route setting comes from: the service's own text whenever it is "
             "not empty, the environment variable KEEP_NEXT_HOP_ROUTE only for an empty one). Judge link (proofs/C13_bridge.v): C13_route_headers, "
             "C13_judge_bridge_udp / C13_judge_bridge_step (judge_C13_event answers 0 on the bytes the model emits).",
-            PROXY_NOTE + "The real proxy is started under generated keepNextHopRoute spellings and KEEP_NEXT_HOP_ROUTE values.",
+            PROXY_NOTE + "The real proxy is started under generated keepNextHopRoute spellings and KEEP_NEXT_HOP_ROUTE values. Spirals (Route sets naming the "
+            "proxy more than once: one own entry consumed per pass, the request sent to the proxy's own socket and processed again) are played by the "
+            "component proxysp (RunProxySp.feed composes proxy_step with itself), model against code, without the per-event judge.",
             "Coq proof (route view flattened over all Route headers, invariance under in-place decoding) + whole-proxy differential run with independent judge"),
     "C17": ("Theorems: C17_same_header_equiv/_refl/_sym/_trans (same_header = equality of the expanded lower-case names, for ALL names), commutation of every look-up/update/insert with "
             "respelling, C17_respell_invariance(_fun) and C17_respell_udp (the whole per-message pipeline on a respelled message: same state, same destinations, outputs that are "
